@@ -48,7 +48,7 @@ def register_p2(reg, prop):
             # without turbo, exactly the arriving packet is acknowledged
             "implies(not xfer.turbo, ncalls('send_reliable') == 1 and called_with('ack_block', lambda Packet: Packet == packet_id.PacketID))",
         ],
-        frame=["xfer.expected_size", "xfer.expected_chunks", "xfer.next_ackable"]))
+        frame=["xfer.expected_size", "xfer.expected_chunks", "xfer.next_ackable", "xfer.chunks"]))
 
     reg.add_class(ClassDecl("Transfer", fields={"transfer_id": o, "chunks": "Opaque:Dict", "expected_size": "Opt[Int]", "expected_chunks": "Opt[Int]",
                                                 "size_known": o, "error_code": "Int", "_future": o},
@@ -72,4 +72,4 @@ def register_p2(reg, prop):
             "iff(ncalls('mark_done') == 1, called_with('is_done', lambda result: not result) and len(transfer.chunks) == transfer.expected_chunks)",
             "ncalls('mark_done') <= 1",
         ],
-        frame=["transfer.expected_chunks"]))
+        frame=["transfer.expected_chunks", "transfer.chunks"]))
